@@ -385,10 +385,10 @@ def run(ctx: lib.Ctx) -> None:
                     gen = k.sign(m, generic=True)
                     impl_verify(cs, pub, None, b'xx', gen, m, 'unknown-curve-generic')
 
-    run_scrub(ctx, cs, ctx.n(150, 3000), report)
+    run_scrub(ctx, cs, ctx.n(80, 3000), report)
 
     # base58 glue directly: every (payload length, prefix) combination the key code can produce and some it cannot
-    for _ in range(ctx.n(40, 600)):
+    for _ in range(ctx.n(25, 600)):
         prefix = rng.choice([b'edsig', b'spsig', b'p2sig', b'sig', b'BLsig', b'edpk', b'sppk', b'p2pk', b'BLpk', b'edsk', b'spsk', b'p2sk', b'BLsk',
                              b'edesk', b'spesk', b'p2esk', b'BLesk', b'tz1', b'tz2', b'tz3', b'tz4', b'KT1', b'sg', b'', b'Sig'])
         ln = rng.choice([20, 32, 33, 48, 56, 64, 96, 63, 65, 0])
